@@ -73,18 +73,22 @@ theorem fused_setBody (G : Grammar) (i : Nat) (h : i < G.rules.length) (b' : Exp
     (∃ r, G.fusedSkip = some r ∧
       ((setBody G i h b').fusedSkip = some r ∨
        (r = G.rules[i] ∧ (setBody G i h b').fusedSkip = some { G.rules[i] with body := b' }))) := by
-  unfold Grammar.fusedSkip
+  have e1 : ∀ (H : Grammar) (x : Option Rule), H.lookup "SKIP" = x →
+      H.fusedSkip = (match x with
+        | some r => if r.mod == SILENT + ATOMIC then some r else none
+        | none => none) := by
+    intro H x hx; subst hx; unfold Grammar.fusedSkip; cases H.lookup "SKIP" <;> rfl
   rcases lookup_setBody G i h b' "SKIP" with ⟨h1, h2⟩ | ⟨r, h1, h2 | ⟨h2, h3⟩⟩
-  · rw [h1, h2]; exact Or.inl ⟨rfl, rfl⟩
-  · rw [h1, h2]; simp only []
+  · rw [e1 _ _ h1, e1 _ _ h2]; exact Or.inl ⟨rfl, rfl⟩
+  · rw [e1 _ _ h1, e1 _ _ h2]
     by_cases hm : (r.mod == SILENT + ATOMIC) = true
-    · simp only [hm, ↓reduceIte]; exact Or.inr ⟨r, rfl, Or.inl rfl⟩
-    · simp only [hm, Bool.false_eq_true, ↓reduceIte]; exact Or.inl ⟨rfl, rfl⟩
-  · rw [h1, h3]; simp only []
+    · exact Or.inr ⟨r, if_pos hm, Or.inl (if_pos hm)⟩
+    · exact Or.inl ⟨if_neg hm, if_neg hm⟩
+  · rw [e1 _ _ h1, e1 _ _ h3]
     subst h2
     by_cases hm : (G.rules[i].mod == SILENT + ATOMIC) = true
-    · simp only [hm, ↓reduceIte]; exact Or.inr ⟨_, rfl, Or.inr ⟨rfl, rfl⟩⟩
-    · simp only [hm, Bool.false_eq_true, ↓reduceIte]; exact Or.inl ⟨rfl, rfl⟩
+    · exact Or.inr ⟨_, if_pos hm, Or.inr ⟨rfl, if_pos hm⟩⟩
+    · exact Or.inl ⟨if_neg hm, if_neg hm⟩
 
 theorem lookup_none_setBody (G : Grammar) (i : Nat) (h : i < G.rules.length) (b' : Expr) (name : String) :
     (setBody G i h b').lookup name = none ↔ G.lookup name = none := by
@@ -101,7 +105,7 @@ theorem Inv_setBody {G : Grammar} (hinv : Inv F sg G) (i : Nat) (h : i < G.rules
     · subst h1; exact hb
   · rcases List.mem_or_eq_of_mem_set hr with h1 | h1
     · exact hinv.skipMod r h1 hn
-    · subst h1; exact hinv.skipMod _ (List.getElem_mem h) hn
+    · subst h1; exact hinv.skipMod G.rules[i] (List.getElem_mem h) hn
   · rw [lookup_none_setBody, lookup_none_setBody]
     apply hinv.fusedTrivia
     rcases fused_setBody G i h b' with ⟨h1, h2⟩ | ⟨r, h1, _⟩
